@@ -60,8 +60,9 @@ def r081(an, rep):
                     else f"declared type {tg.show(t)} is deeply immutable")
 
 
-def _mirror_keys(fn, other: str) -> Optional[Set[str]]:
-    """Key expressions k(self) such that __eq__ compares k(self) with k(other)."""
+def _mirror_keys(fn, other: str, identity=None) -> Optional[Set[str]]:
+    """Key expressions k(self) such that __eq__ compares k(self) with k(other); comparisons by `is` / `is not` are keys too and are
+    collected in `identity` (list of (key, Compare node)) when given."""
     keys: Set[str] = set()
 
     class Sub(ast.NodeTransformer):
@@ -69,15 +70,22 @@ def _mirror_keys(fn, other: str) -> Optional[Set[str]]:
             return ast.copy_location(ast.Name("self", n.ctx), n) if n.id == other else n
 
     for n in ast.walk(fn.node):
-        if isinstance(n, ast.Compare) and len(n.ops) == 1 and isinstance(n.ops[0], (ast.Eq, ast.NotEq)):
+        if isinstance(n, ast.Compare) and len(n.ops) == 1 and isinstance(n.ops[0], (ast.Eq, ast.NotEq, ast.Is, ast.IsNot)):
             l, r = n.left, n.comparators[0]
+            if isinstance(l, ast.Name) and isinstance(r, ast.Name):
+                continue  # `self is other`
             import copy
             r2 = Sub().visit(copy.deepcopy(r))
             l2 = Sub().visit(copy.deepcopy(l))
+            k = None
             if ast.dump(l) == ast.dump(r2) and "self" in {x.id for x in ast.walk(l) if isinstance(x, ast.Name)}:
-                keys.add(norm_src(l))
+                k = norm_src(l)
             elif ast.dump(r) == ast.dump(l2) and other in {x.id for x in ast.walk(l) if isinstance(x, ast.Name)}:
-                keys.add(norm_src(r))
+                k = norm_src(r)
+            if k is not None:
+                keys.add(k)
+                if identity is not None and isinstance(n.ops[0], (ast.Is, ast.IsNot)):
+                    identity.append((k, n))
     return keys
 
 
@@ -126,7 +134,12 @@ def r082(an, rep):
             params = eqm.params
             if len(params) != 2:
                 raise AnalysisError(f"{eqm.qual}: unexpected signature")
-            eq_keys = _mirror_keys(eqm, params[1])
+            ident = []
+            eq_keys = _mirror_keys(eqm, params[1], ident)
+            for k, cmp_node in ident:
+                rep.add("R08.2", f"{ci.qual}::__eq__ compares {k} by value", False, loc(ci.module, cmp_node),
+                        f"`{norm_src(cmp_node)}` compares by identity: two equal values that are different objects (an int above 256 decoded twice, a value loaded from JSON, a copy) "
+                        f"make the two {ci.name}s unequal although every field is equal - from_json_data(to_json_data(x)) != x, and a set of such values keeps both")
             if not eq_keys:
                 raise AnalysisError(f"{eqm.qual}: cannot recognise the comparison idiom (expected k(self) ==/!= k(other) tests)")
             # a value of another class is never equal: its hash is not a function of this class's key
